@@ -43,7 +43,7 @@ reg(Prop('C02', 'Kevo.Props.C02', facts=['facts:wal.*', 'facts:storage.*'], comp
 from oracledefs import walfault, txvis, engine as _eng
 ENGINE_C03 = Comp('engine', n_quick=120, n_thorough=2000, oracle=_eng.engine_oracle, nontrivial=_eng.engine_nontrivial, stats=_eng.engine_stats,
                   chunk_min=10, timeout=900)
-TXVIS = Comp('txvis', n_quick=32, n_thorough=400, oracle=txvis.txvis_oracle, nontrivial=txvis.txvis_nontrivial, stats=txvis.txvis_stats,
+TXVIS = Comp('txvis', n_quick=48, n_thorough=400, oracle=txvis.txvis_oracle, nontrivial=txvis.txvis_nontrivial, stats=txvis.txvis_stats,
              differential=False, chunk_min=2, timeout=900, shrink=False)
 WALFAULT_C03 = Comp('walfault', n_quick=36, n_thorough=600, oracle=walfault.walfault_c03_oracle, nontrivial=walfault.walfault_nontrivial,
                     stats=walfault.walfault_stats, chunk_min=4, timeout=1200, shrink=False)
